@@ -348,9 +348,9 @@ class InterpModel:
         lo = np.array([])
         hi = np.array([])
         if new_min < self.xmin and p_min > 0:
-            lo = new_min + np.arange(int(p_min)) * ((self.xmin - new_min) / int(p_min))
+            lo = np.linspace(new_min, self.xmin, int(p_min), endpoint=False)
         if new_max > self.xmax and p_max > 0:
-            hi = self.xmax + np.arange(1, int(p_max) + 1) * ((new_max - self.xmax) / int(p_max))
+            hi = np.linspace(self.xmax, new_max, int(p_max) + 1)[1:]
         info = {"op": "extend", "n_lo": len(lo), "n_hi": len(hi),
                 "new_min": float(new_min), "new_max": float(new_max),
                 "p_min": int(p_min), "p_max": int(p_max),
@@ -590,8 +590,23 @@ class InterpModel:
                 sc = np.maximum.reduce([np.abs(spl(xm - 2 * dx)), np.abs(spl(xm)),
                                         np.abs(spl(xm + 2 * dx))]) \
                     + fn.xabs * np.abs(spl.derivative(1)(xm))
-                tol[mask] = K_FD * S_FD[order] * 2.0 * EPS * (sc + 1e-300) / dx ** order \
+                t = K_FD * S_FD[order] * 2.0 * EPS * (sc + 1e-300) / dx ** order \
                     + 256.0 * EPS * np.abs(e)
+                if np.any(layer):
+                    # a difference stencil that reaches past the first knot inside the
+                    # table sees s, not the end cubic p: add S/dx^n * max|s - p|
+                    j = 0 if name == "below" else len(self.xs) - 2
+                    x0 = self.xs[j]
+                    cj = spl.c[:, j]                     # (4, R)
+                    dev = np.zeros(xm.shape + (R,))
+                    for kk in (-2, -1, 1, 2):
+                        pos = xm + kk * dx
+                        z = (pos - x0)[..., None]
+                        pend = ((cj[0] * z + cj[1]) * z + cj[2]) * z + cj[3]
+                        inside = ((pos >= self.xmin) & (pos <= self.xmax))[..., None]
+                        dev = np.maximum(dev, np.where(inside, np.abs(spl(pos) - pend), 0.0))
+                    t[layer] += 2.0 * S_FD[order] / dx ** order * dev[layer]
+                tol[mask] = t
         pr.expected, pr.tol = self._squeeze(exp), self._squeeze(tol)
         pr.truth, pr.acc = self._squeeze(truth), self._squeeze(acc)
         pr.kind = kind
